@@ -1516,8 +1516,15 @@ func tagSchemaCase(ts *TagSchema) {
 		}
 	}
 	for i, x := range reg.Log {
-		if x.Status == 200 && int64(x.BytesRead()) > effLimit(ts.Limit) {
-			fail("over-read", fmt.Sprintf("response %d: %d bytes consumed, MaxMetadataBytes %d (effective %d)", i, x.BytesRead(), ts.Limit, effLimit(ts.Limit)))
+		if eff := effLimit(ts.Limit); x.Status == 200 && int64(x.BytesRead()) > eff {
+			sig := "over-read"
+			// known finding: a manifest GET without Docker-Content-Digest is read through a reader of
+			// limit+1 bytes (to tell an oversized body from a fitting one): exactly one byte too many,
+			// only for a body larger than the limit, and the listing fails
+			if x.Kind == 'M' && ts.NoDigest && int64(x.TotalLen) > eff && int64(x.BytesRead()) == eff+1 && err != nil && len(pages) == 0 {
+				sig = "over-read-digest-probe"
+			}
+			fail(sig, fmt.Sprintf("response %d: %d bytes consumed, MaxMetadataBytes %d (effective %d)", i, x.BytesRead(), ts.Limit, eff))
 		}
 	}
 	got := flat(pages)
@@ -1598,51 +1605,82 @@ type ociOp struct {
 func ociCase(ops []ociOp, last string, reopen bool) {
 	id := run.NewID()
 	rep := map[string]any{"op": "oci", "ops": ops, "last": last, "reopen": reopen}
+	// an unexpected error of the store while the layout is being prepared is not a listing matter:
+	// the case is then not judged (counted; the coverage floor on judged cases guards against silence)
+	notJudged := func(what string, err error) {
+		run.Count("oci_not_judged")
+		fmt.Fprintf(os.Stderr, "C15 oci case not judged: %s: %v\n", what, err)
+	}
 	dir, err := os.MkdirTemp("", "c15oci")
 	if err != nil {
-		panic(err)
+		notJudged("MkdirTemp", err)
+		return
 	}
 	defer os.RemoveAll(dir)
 	ctx := context.Background()
 	st, err := oci.New(dir)
 	if err != nil {
-		panic(err)
+		notJudged("oci.New", err)
+		return
 	}
 	truth := map[string]string{} // reference -> digest
 	descs := map[int]ocispec.Descriptor{}
+	var setupErr error
 	blob := func(i int) ocispec.Descriptor {
 		if d, ok := descs[i]; ok {
 			return d
 		}
 		data := []byte(fmt.Sprintf("blob-%d", i))
 		d := ocispec.Descriptor{MediaType: "application/octet-stream", Digest: digest.FromBytes(data), Size: int64(len(data))}
-		if err := st.Push(ctx, d, bytes.NewReader(data)); err != nil {
-			panic(err)
+		if err := st.Push(ctx, d, bytes.NewReader(data)); err != nil && setupErr == nil {
+			setupErr = fmt.Errorf("Push blob %d: %w", i, err)
 		}
 		descs[i] = d
 		return d
 	}
 	for _, op := range ops {
 		tag := op.Tag
+		foreign := false
 		if strings.HasPrefix(tag, "@") { // a digest string used as a reference
 			k, _ := strconv.Atoi(tag[1:])
 			tag = blob(k).Digest.String()
+			foreign = op.Blob >= 0 && k != op.Blob
 		}
 		if op.Blob < 0 {
 			if _, ok := truth[tag]; ok && !strings.HasPrefix(tag, "sha256:") {
-				if err := st.Untag(ctx, tag); err != nil {
-					panic(err)
+				if err := st.Untag(ctx, tag); err != nil && setupErr == nil {
+					setupErr = fmt.Errorf("Untag %q: %w", tag, err)
 				}
 				delete(truth, tag)
 			}
 			continue
 		}
 		d := blob(op.Blob)
-		if err := st.Tag(ctx, d, tag); err != nil {
-			panic(err)
+		err := st.Tag(ctx, d, tag)
+		if foreign {
+			// the digest of OTHER content is not a reference of d: the store refuses it and nothing changes
+			// (a reference in digest form can only be the content's own digest, which Tags() skips)
+			if errors.Is(err, errdef.ErrInvalidReference) {
+				run.Count("oci_foreign_digest_refused")
+				continue
+			}
+			if setupErr == nil {
+				setupErr = fmt.Errorf("Tag(blob %d, digest of other content) = %v, want ErrInvalidReference", op.Blob, err)
+			}
+			continue
+		}
+		if err != nil {
+			if setupErr == nil {
+				setupErr = fmt.Errorf("Tag(blob %d, %q): %w", op.Blob, tag, err)
+			}
+			continue
 		}
 		truth[tag] = d.Digest.String()
 		truth[d.Digest.String()] = d.Digest.String()
+	}
+	if setupErr != nil {
+		notJudged("preparing the layout", setupErr)
+		return
 	}
 	type tagLister interface {
 		Tags(ctx context.Context, last string, fn func(tags []string) error) error
@@ -1692,11 +1730,7 @@ func ociCase(ops []ociOp, last string, reopen bool) {
 			run.OracleFail(id, "oci-tags-call", fmt.Sprintf("%s: Tags(last=%q): %d callbacks, err %v", label, last, calls, err), rep)
 		case !sort.StringsAreSorted(got):
 			run.OracleFail(id, "oci-tags-sorted", fmt.Sprintf("%s: Tags(last=%q) = %q", label, last, got), rep)
-		case reloaded && strings.Join(noDigestRefs(got), "\x00") != strings.Join(noDigestRefs(want), "\x00"):
-			// a reference that is the digest string of ANOTHER blob is a caller inconsistency that a
-			// reload does not preserve (not a listing matter): such references are left out here
-			run.OracleFail(id, "oci-tags-set", fmt.Sprintf("%s: Tags(last=%q) = %q, want %q", label, last, got, want), rep)
-		case !reloaded && strings.Join(got, "\x00") != strings.Join(want, "\x00"):
+		case strings.Join(got, "\x00") != strings.Join(want, "\x00"):
 			run.OracleFail(id, "oci-tags-set", fmt.Sprintf("%s: Tags(last=%q) = %q, want %q", label, last, got, want), rep)
 		}
 		for _, g := range got {
@@ -1710,33 +1744,25 @@ func ociCase(ops []ociOp, last string, reopen bool) {
 	// the read-only store over the same layout (ReadOnlyStore.Tags), and a re-opened Store
 	ro, rerr := oci.NewFromFS(ctx, os.DirFS(dir))
 	if rerr != nil {
-		panic(rerr)
+		notJudged("oci.NewFromFS", rerr)
+	} else {
+		g2, c2, e2 := list(ro)
+		judge("ReadOnlyStore", g2, c2, e2, true)
+		run.Count("oci_tags_readonly")
 	}
-	g2, c2, e2 := list(ro)
-	judge("ReadOnlyStore", g2, c2, e2, true)
-	run.Count("oci_tags_readonly")
 	if reopen {
 		st2, err := oci.New(dir)
 		if err != nil {
-			panic(err)
+			notJudged("reopening the layout", err)
+		} else {
+			g3, c3, e3 := list(st2)
+			judge("reopened Store", g3, c3, e3, true)
+			run.Count("oci_tags_reopened")
 		}
-		g3, c3, e3 := list(st2)
-		judge("reopened Store", g3, c3, e3, true)
-		run.Count("oci_tags_reopened")
 	}
 	if len(want) > 1 {
 		run.Nontrivial("O" + e + "|" + last)
 	}
-}
-
-func noDigestRefs(ss []string) []string {
-	var out []string
-	for _, s := range ss {
-		if !strings.HasPrefix(s, "sha256:") {
-			out = append(out, s)
-		}
-	}
-	return out
 }
 
 func genOci(r *common.Rand) {
@@ -1974,7 +2000,7 @@ func coverageFloors() {
 		"link_variant_0": 100, "link_variant_1": 100, "link_variant_2": 100, "link_variant_3": 100, "link_variant_4": 100,
 		"list_T_": 1000, "list_K_": 500, "list_R_": 1000, "list_T_ErrCallback": 5, "list_R_ErrDecode": 5, "list_K_ErrLink": 3,
 		"wrap_U_": 300, "wrap_S_": 50, "wrap_N_": 50, "ping_": 100, "tagschema_": 200, "tagschema_dirty_index": 30, "tagschema_ErrSize": 10,
-		"oci_tags": 100, "oci_tags_readonly": 100, "oci_tags_reopened": 10, "body_OK": 10, "body_ERR": 10, "parse_link_": 100,
+		"oci_tags": 100, "oci_foreign_digest_refused": 10, "oci_tags_readonly": 100, "oci_tags_reopened": 10, "body_OK": 10, "body_ERR": 10, "parse_link_": 100,
 		"filter_applied_": 30, "filter_referrers": 30, "limit_size_": 30,
 	}
 	var low []string
